@@ -31,6 +31,27 @@ def run(r):
     # purity first: cheap, robust, and a recorded violation takes precedence over a later 'cannot decide'
     check_pure_params(r, "C02-PURE", [M + "pc_n", M + "pc", M + "pc_joint", "pyrepseq.util.convert_tuple_to_dataframe_if_necessary"])
     rep.floor("C02-PURE", 6)
+    # ---- C02-NA: library fact - DataFrame.value_counts() and groupby() leave out every row that holds a missing cell unless dropna=False is
+    # given, while two rows with a missing cell in the same column coincide (fillna before serialisation); counting rows that way is wrong
+    # whatever surrounds it
+    for fname in ("pc", "pc_joint"):
+        q = M + fname
+        s = r.A.summary(q)
+        inner = [r.A.summary(x) for x in r.P.functions if x.startswith(q + ".")]
+        for s_cur in [s] + inner:
+            for e in s_cur.events_of("call"):
+                t = strip(e["term"])
+                f = strip(t[1])
+                if not (head(f) == "attr" and f[2] in ("value_counts", "groupby")):
+                    continue
+                recv = f[1]
+                filled = any(head(x) == "attr" and x[2] in ("fillna", "dropna", "astype", "apply", "map") for x in walk(recv))
+                rooted = any(head(x) in ("param", "lparam") for x in walk(recv))
+                dn = dict(t[3]).get("dropna")
+                if rooted and not filled and not (dn is not None and is_const(strip(dn), False)):
+                    rep.ob("C02-NA", q, False, "rows with a missing cell take part in the count like any other row", where_of(r.P, s_cur.func, e.node),
+                           expected="row-wise serialisation after fillna, or value_counts / groupby with dropna=False", found=show(t, 120), key=f"{f[2]} drops rows with missing cells")
+
     check_against_spec(r, "C02-RF", "pc_n", "pc_n(n) == sum n_i(n_i - 1) / (N (N - 1))", vec=vec_with_param0)
     check_against_spec(r, "C02-RF", "pc", "pc one-sample == coinciding ordered pairs / N(N-1); two-sample == coinciding cross pairs / (N1 N2); tables serialised row-wise", vec=is_vec)
     check_against_spec(r, "C02-JOINT", "pc_joint", "pc_joint == pc of the row serialisation of the selected columns, same token for both tables", vec=is_vec)
